@@ -269,6 +269,10 @@ func main() {
 				if !v.Confirmed {
 					unconfirmed++
 					fmt.Printf("UNCONFIRMED property=%s harness=%s label=%q native=%v\n", *prop, hr.Name, v.Label, v.NativeEvents)
+					if os.Getenv("SYMGO_DEBUG_UNCONFIRMED") != "" {
+						jb, _ := json.Marshal(v.Model)
+						fmt.Printf("  inputs=%s\n", jb)
+					}
 					problems = append(problems, fmt.Sprintf("%s: counterexample for %q did not reproduce natively", hr.Name, v.Label))
 					continue
 				}
